@@ -253,19 +253,26 @@ def part_a(tier, seed):
     s2.bind(33)
     # grammar: parameter values that are legal on the wire but unusual for text handling (names are octet strings)
     P = pdu_mod
-    odd_names = [b"", b"urn:nfc:sn:caf\xe9", b"\xff\xfe\x00", b"urn:nfc:sn:" + b"x" * 200, b"\x80" * 255, b"urn:nfc:sn:x\x00y"]
+    odd_names = [b"", b"urn:nfc:sn:caf\xe9", b"\xff\xfe\x00", b"urn:nfc:sn:" + b"x" * 200, b"\x80" * 255, b"urn:nfc:sn:x\x00y",
+                 b"n" * 253, b"n" * 254, b"n" * 255]          # the longest values the one-octet TLV length allows
     odd = []
     for nm in odd_names:
         odd.append(P.Connect(1, 33, 300, 2, nm))
         odd.append(P.Connect(16, 33, sn=nm))
-        if len(nm) < 250:
-            odd.append(P.ServiceNameLookup(1, 1, sdreq=[(1, nm)], sdres=[(2, 16)]))
+        if len(nm) <= 254:
+            odd.append(P.ServiceNameLookup(1, 1, sdreq=[(1, nm)]))
     odd_frames = []
     for q in odd:
         try:
             odd_frames.append(bytes(P.encode(q)))
         except Exception:
             pass
+    # the same frames built by hand (the encoder of the code under test must not be what decides which inputs exist)
+    for nm in odd_names:
+        if len(nm) <= 254:
+            odd_frames.append(struct.pack(">H", 1 << 10 | 0b1001 << 6 | 1) + bytes([0x08, 1 + len(nm), 7]) + nm)      # SNL SDREQ
+        if len(nm) <= 255:
+            odd_frames.append(struct.pack(">H", 1 << 10 | 0b0100 << 6 | 33) + bytes([0x06, len(nm)]) + nm)            # CONNECT SN
     dispatched = list(mutations(llcp, rnd, n_rand // 4)) + odd_frames
     for d in dispatched:
         try:
@@ -285,6 +292,10 @@ def part_a(tier, seed):
             outcome(lambda: llc.collect())          # keep the queues drained
             # every PDU is rendered by the logging calls of the stack (dispatch() does so for aggregated PDUs at any level)
             k = ("pdu.str",) + outcome(lambda: str(q))
+            cnt[k] += 1
+            samples.setdefault(k, d.hex())
+            # ... and compared with other PDUs by the run loops (rcvd_pdu == Disconnect(0, 0))
+            k = ("pdu.eq",) + outcome(lambda: (q == P.Disconnect(0, 0), q != P.Symmetry(), True)[2])
             cnt[k] += 1
             samples.setdefault(k, d.hex())
 
